@@ -405,10 +405,142 @@ def parse_case(rng, depth):
     return ops
 
 
-def big_key_cases():
-    """JSON_MAX_KEY boundary: a 1 MiB name is accepted, one byte more is refused ("Too large key")"""
-    k0 = "61" * (1 << 20)
-    return [["dict", "put_null 0 " + k0, "put_int 0 " + k0 + "62 1", "put_null 0 " + k0[:-2], "size 0"]]
+KEY_LIMIT = 1 << 20
+
+
+def _esc_len(k):
+    """length of the literal json_render writes for the name k (without the quotes)"""
+    n = 0
+    i = 0
+    while i < len(k):
+        b = k[i]
+        if b in (0x22, 0x5C) or b in (8, 9, 10, 12, 13):
+            n += 2
+        elif b < 0x20:
+            n += 6
+        elif k[i:i + 3] in (b"\xe2\x80\xa8", b"\xe2\x80\xa9"):
+            n += 6
+            i += 2
+        else:
+            n += 1
+        i += 1
+    return n
+
+
+def _json_lit(k):
+    """a JSON string literal for the name k using the escapes json_render uses"""
+    out = bytearray(b'"')
+    i = 0
+    short = {8: b"\\b", 9: b"\\t", 10: b"\\n", 12: b"\\f", 13: b"\\r", 0x22: b'\\"', 0x5C: b"\\\\"}
+    while i < len(k):
+        b = k[i]
+        if b in short:
+            out += short[b]
+        elif b < 0x20:
+            out += b"\\u%04x" % b
+        elif k[i:i + 3] in (b"\xe2\x80\xa8", b"\xe2\x80\xa9"):
+            out += b"\\u202%d" % (8 + (k[i + 2] - 0xA8))
+            i += 2
+        else:
+            out.append(b)
+        i += 1
+    return bytes(out + b'"')
+
+
+def big_key_cases(rng, full):
+    """JSON_MAX_KEY (1 MiB) is a limit on the DECODED name.  (a) plain names of 2^20-1, 2^20, 2^20+1
+    bytes; (b) names made of bytes json_render escapes, whose decoded length stays within the limit
+    while the rendered literal crosses it (and the exact-fit neighbours) - each through json_dict_put
+    and through json_parse of a document, then render, dump and re-parse."""
+    L = KEY_LIMIT
+    names = [("plain-1", b"a" * (L - 1)), ("plain=", b"a" * L), ("plain+1", b"a" * (L + 1))]
+    esc = [
+        ("ctl-6x", b"\x01" * 174763),            # 6 bytes each: 1048578 > L
+        ("ctl-6x-fit", b"\x01" * 174762 + b"aaaa"),  # literal exactly L
+        ("bs", b"\\" * 524289),                   # 2 bytes each: 1048578 > L
+        ("bs-fit", b"\\" * 524288),               # literal exactly L
+        ("quote", b'"' * 524289),
+        ("nl", b"\n" * 524289),
+        ("ls", b"\xe2\x80\xa8" * 174763),         # decoded 524289, literal 1048578
+        ("ps-fit", b"\xe2\x80\xa9" * 174762 + b"abcd"),
+        ("quote-max", b'"' * L),                   # decoded exactly L, literal 2 L
+        ("quote-over", b'"' * (L + 1)),            # decoded over the limit: refused
+    ]
+    mix = bytearray()
+    mixlen = 0
+    while mixlen <= L + 64:
+        piece = rng.choice([b"\x02", b"\x1f", b'"', b"\\", b"\t", b"\xe2\x80\xa8", b"z", b"\xc3\xa9"])
+        cnt = 1 + rng.below(400)
+        mix += piece * cnt
+        mixlen += _esc_len(piece) * cnt
+    esc.append(("mixed", bytes(mix)))
+    if not full:
+        names = [names[1], names[2]]
+        esc = [esc[0], esc[2], esc[-1]]
+    cases = []
+    for i, (tag, k) in enumerate(names + esc):
+        h = vf.hexs(k)
+        via_put = ["dict", "put_int 0 %s 7" % h, "size 0", "dump 0", "rt 0", "render 0",
+                   "put_null 0 %s" % h, "size 0"]
+        doc = b"{ " + _json_lit(k) + b" : [ ] }"
+        via_parse = ["parse %s -" % vf.hexs(doc), "size 0", "dump 0", "rt 0", "render 0"]
+        if full or i % 2 == 0:
+            cases.append(via_put)
+        if full or i % 2 == 1:
+            cases.append(via_parse)
+    return cases
+
+
+def wide_cases(rng, full):
+    """many EMPTY containers in one tree (nothing to do with depth): a flat list of 1000-3000 empty
+    lists/dicts, and a list of records each carrying an empty list and an empty dict, wrapped so that
+    the deepest container sits at nesting depth 2, 11, 500, 512."""
+    cases = []
+    for wrappers in (0, 9, 498, 510):
+        for flavour in ("flat", "records", "dict"):
+            ops = []
+            n = 0
+
+            def new(line):
+                nonlocal n
+                ops.append(line)
+                n += 1
+                return n - 1
+            count = 1000 + rng.below(2001) if (full or wrappers in (0, 510)) else 1100
+            if flavour == "flat":
+                top = new("list")
+                for _ in range(count):
+                    c = new(rng.choice(["list", "dict"]))
+                    ops.append("append %d %d" % (top, c))
+            elif flavour == "dict":
+                top = new("dict")
+                for j in range(count):
+                    c = new(rng.choice(["list", "dict"]))
+                    ops.append("put %d %s %d" % (top, vf.hexs(b"k%d" % j), c))
+            else:
+                top = new("list")
+                for j in range(count // 2):
+                    r = new("dict")
+                    t = new("list")
+                    a = new("dict")
+                    ops += ["put_int %d 6964 %d" % (r, j), "put %d 74616773 %d" % (r, t),
+                            "put %d 6174747273 %d" % (r, a), "append %d %d" % (top, r)]
+            if flavour == "records" and wrappers == 510:
+                wrappers_here = 509      # records add one level
+            else:
+                wrappers_here = wrappers
+            cur = top
+            for _ in range(wrappers_here):
+                if rng.chance(1, 2):
+                    w = new("list")
+                    ops.append("append %d %d" % (w, cur))
+                else:
+                    w = new("dict")
+                    ops.append("put %d 77 %d" % (w, cur))
+                cur = w
+            ops += ["size %d" % top, "render %d" % cur, "dump %d" % cur, "rt %d" % cur]
+            cases.append(ops)
+    return cases
 
 
 def bad_doc_cases():
@@ -495,10 +627,14 @@ def run(ck):
             for l in c:
                 op = l.split()[0]
                 hist[op] = hist.get(op, 0) + 1
+        import time as _t
+        t0 = _t.time()
         for ch in vf.chunks(cases, chunk):
             if enough():
                 break
             ck.compare_cases(hcmd, dcmd, ch, label=label, nontrivial=nontriv, monitor=monitor, timeout=240)
+        ph = ck.cov.setdefault("phase_s", {})
+        ph[label] = round(ph.get(label, 0) + _t.time() - t0, 2)
 
     go(vf.corpus_cases(PID), "corpus")
     intensify = not ck.proof_ok
@@ -507,7 +643,14 @@ def run(ck):
     go(scalar_sweep_cases(rng, "float"), "sweep-float")
     go(scalar_sweep_cases(rng, "str"), "sweep-str")
     go(bad_doc_cases(), "bad-docs")
-    go(big_key_cases(), "big-key")
+    bk = big_key_cases(rng, not ck.quick())
+    go(bk, "big-key", chunk=4)
+    ck.cov["big_key_family"] = {"cases": len(bk), "tier_note": "full family (3 plain + 11 escaped names, each through "
+                                "json_dict_put and through json_parse) in the thorough tier; quick runs a reduced one "
+                                "(2 plain + 3 escaped, alternating put / parse) to stay within its time budget"}
+    wc = wide_cases(rng, not ck.quick())
+    go(wc, "wide-empty", chunk=4)
+    ck.cov["wide_empty_family"] = {"cases": len(wc), "empties_per_tree": "1000..3000", "depths": [2, 11, 500, 512]}
     n = ck.scale(6000, 200000) * mult
     trees = [tree_case(rng, 1 + rng.below(6), 1 + rng.below(5)) for _ in range(n)]
     go(trees, "trees")
